@@ -749,7 +749,9 @@ class Oracle:
             self.held, self.handles = {}, {}
             self.read_table(res)
             if ok:
-                self.stale = True
+                # the public hwloc_topology_dup refreshes the copy (/repo fix "refresh the distances and memory
+                # attribute caches of a duplicated topology"); before that fix the copy was left stale
+                self.do_refresh()
             else:
                 raise Violation("spec:dup-failed", "hwloc_topology_dup failed")
         elif op == "xml":
